@@ -7,7 +7,9 @@ use harper_core::{Document, TokenKind};
 #[test]
 fn rac_typst_frontend() {
     use std::sync::{Arc, Mutex, mpsc};
-    let frags = ["Some words é here. ", "#let x = 1\n", "*bold 😀* ", "$x^2$ ", "#(\"text in string\") ", "= Heading\n", "#f(a, b: \"str é\")[content here] ", "`raw` ", "\n\n", "- item one\n"];
+    let frags = ["Some words é here. ", "#let x = 1\n", "*bold 😀* ", "$x^2$ ", "#(\"text in string\") ", "= Heading\n", "#f(a, b: \"str é\")[content here] ", "`raw` ", "\n\n", "- item one\n",
+                 // show / set rules: selector before transform, arguments before the condition
+                 "#show \"and\": [and] ", "#set text(size: 12pt) if true\n", "#show heading: it => [the the #it]\n"];
     let current: Arc<Mutex<String>> = Arc::new(Mutex::new(String::new()));
     let cur2 = current.clone();
     let (tx, rx) = mpsc::channel::<Result<(u64, u64), String>>();
@@ -60,7 +62,7 @@ fn rac_typst_frontend() {
         let _ = tx.send(Ok((cases, nontrivial)));
     });
     match rx.recv_timeout(std::time::Duration::from_secs(240)) {
-        Ok(Ok((cases, nontrivial))) => println!("RAC-OK typst_frontend cases={} nontrivial={} bound=<=3-of-10-fragments+nesting-depth<=22", cases, nontrivial),
+        Ok(Ok((cases, nontrivial))) => println!("RAC-OK typst_frontend cases={} nontrivial={} bound=<=3-of-13-fragments+nesting-depth<=22", cases, nontrivial),
         Ok(Err(cex)) => { println!("RAC-CEX typst_frontend {}", cex); panic!("typst front-end contract violated"); }
         Err(_) => { println!("RAC-CEX typst_frontend {{\"text\": {:?}, \"why\": \"did not terminate within 240 s\"}}", current.lock().unwrap().clone()); panic!("typst front-end hangs"); }
     }
